@@ -82,6 +82,25 @@ def stageE_v(terms):
 
 # ------------------------------------------------------------------ residuals
 
+def u_from_solution(out):
+    """the displacement vector read back from the reported global displacements of the slice nodes
+    (used when the observer hook saw no solver call: whatever was reported is what is judged)"""
+    pre = out["Pre"][-1]
+    n = pre["DofCount"]
+    u = ["0"] * n
+    sols = {sb["ID"]: sb for sb in out["Sol"]}
+    for pb in pre["Bars"]:
+        sb = sols.get(pb["ID"])
+        if sb is None:
+            continue
+        for j, nd in enumerate(pb["Nodes"]):
+            for k, nm in enumerate(("gdx", "gdy", "grz")):
+                vals = sb["Series"][nm]["V"] or []
+                if j < len(vals) and 0 <= nd["Dof"][k] < n:
+                    u[nd["Dof"][k]] = vals[j]
+    return u
+
+
 def residuals(out):
     """exact f - K u per equation, and the magnitude sum of the terms of each row"""
     n = len(out["F"])
